@@ -148,6 +148,9 @@ func setUintFromBigFloat(value *big.Float, dst reflect.Value) {
 }
 
 func setUintFromDecimalFloat(value compact_float.DFloat, dst reflect.Value) {
+	if value.Coefficient < 0 {
+		PanicErrorConverting(value, dst.Type(), fmt.Errorf("value is negative"))
+	}
 	u, err := value.Uint()
 	if err != nil {
 		PanicErrorConverting(value, dst.Type(), err)
